@@ -165,6 +165,10 @@ func c12File(t *rapid.T) {
 		if rapid.Bool().Draw(t, "hasexp") {
 			it.exp = rapid.Uint64Range(1, 1<<62).Draw(t, "exp")
 		}
+		if it.v.Kind == "zset" && len(it.v.ZSet) > 0 && rapid.IntRange(0, 2).Draw(t, "anyScore") == 0 {
+			// every float64 class, NaN and negative zero included (the statement names them)
+			it.v.ZSet[rapid.IntRange(0, len(it.v.ZSet)-1).Draw(t, "which")].Score = anyScore().Draw(t, "score")
+		}
 		items = append(items, it)
 	}
 	res := logcap.Run(func() {
